@@ -62,11 +62,16 @@ macro_rules! impl_ext_members {
         }
     };
 }
+#[derive(Clone, Debug)]
+pub struct SyT(pub u64);
 impl_ext_members!(SyD);
 impl_ext_members!(SyR);
+impl_ext_members!(SyT);
 cglue_trait_group!(ExtGrp, { Kb, Clone }, { IoRead, Debug });
 cglue_impl_group!(SyD, ExtGrp, { Debug });
 cglue_impl_group!(SyR, ExtGrp, { IoRead });
+// a list written with a trailing comma enables every trait it names
+cglue_impl_group!(SyT, ExtGrp, { Debug, IoRead, });
 
 const W: usize = core::mem::size_of::<usize>();
 
@@ -105,6 +110,11 @@ nd::harnesses! {
         assert!((w[2] != 0) == only_debug, "word 2 is the optional Debug vtable (null when absent)");
         assert!((w[3] != 0) == !only_debug, "word 3 is the optional IoRead vtable (null when absent)");
         assert!(as_ref!(grp impl Debug).is_some() == only_debug && as_ref!(grp impl IoRead).is_some() == !only_debug);
+        // a requested set may name a trait by PATH: every named trait counts
+        assert!(as_ref!(grp impl Debug + self::IoRead).is_none(), "neither type implements both optional traits");
+        let both: ExtGrpBox = group_obj!(SyT(v) as ExtGrp);
+        assert!(as_ref!(both impl Debug).is_some() && as_ref!(both impl IoRead).is_some(), "a registration list with a trailing comma enables all its traits");
+        assert!(as_ref!(both impl Debug + self::IoRead).is_some());
         let c = grp.clone();
         assert!(c.kb() == v ^ 0x4B);
         if let Some(r) = as_ref!(c impl IoRead) {
